@@ -525,7 +525,11 @@ func checkEnums(p *Program, r *Report, pl *Policy) {
 	decl := scSetOfPredicate(f)
 	shape := map[int64]bool{}
 	for v := range pl.Info {
-		if _, ok := enumSanitizerSet(pl.SanitizerFunc(v)); ok {
+		_, isEnumShape := enumSanitizerSet(pl.SanitizerFunc(v))
+		if !isEnumShape {
+			_, isEnumShape = enumWordsOf(p, pl.SanitizerFunc(v))
+		}
+		if isEnumShape {
 			shape[v] = true
 		}
 	}
